@@ -78,7 +78,7 @@ def evlist : List (String × String) := [
 def nch : Nat := 6
 def chanNames : List String := ["taskid", "task_type", "subsystem", "rank", "thread_type", "idle"]
 def chanStack : List Bool := [false, false, true, false, true, false]
-def chanDup : List Bool := [false, true, false, true, false, false]
+def chanDup : List Bool := [false, true, true, true, false, false]
 def cpuChanStack : List Bool := [false, false, true, false, true, false]
 def cpuNch : Nat := 6
 def pvtType : List Nat := [35, 36, 37, 38, 39, 40]
